@@ -1,12 +1,14 @@
 """C08 — exported gradient waveforms equal an event-by-event rendering."""
 import bisect
+import copy
 import importlib
+import random
 from fractions import Fraction
 
 import numpy as np
 
 import exportgen as eg
-from common import F, qtok, qlist, Toks
+from common import F, qtok, qlist, Toks, stable_hash, jsonable
 
 ID = 'C08'
 GEN_SECTIONS = ['GenExport']
@@ -15,7 +17,10 @@ EXTRACT_TARGETS = ['Extract/Ex_export.vo']
 RUNNER = 'export'
 LEVEL = 'proof'
 MANIFEST = {
-    'text': "Theorems (Coq, all block lists of all lengths): for every edge-consistent list of pieces the joined "
+    'text': "Theorems (Coq, all block lists of all lengths): stated on EVENTS - whenever the gradients of a channel are "
+            "timing valid and connect as add_block demands (input-level condition Connected, relative times only), the "
+            "export succeeds, is strictly increasing, equals the rendering of the active event at every time and is "
+            "zero where no event is active; proved via: for every edge-consistent list of pieces the joined "
             "corner list of Sequence.waveforms() evaluates, at every time inside a piece, to that piece (= the "
             "per-event rendering: trapezoid formula / interpolated corner list shifted by delay and block start) "
             "and to zero where no event is active; its times are spaced by at least eps (the code's own "
@@ -38,7 +43,11 @@ RULE = ('random edge-consistent sequences of 1-8 (quick) / 1-30 (thorough) block
         'edges of both signs, gradient delays, pure delay blocks, optional RF/ADC; per sequence: waveforms() '
         '(strict monotonicity, value at every dense time vs independent exact renderer, zero outside events), '
         'get_gradients() callables at the same times, 3 random time_range selections (incl. exact block '
-        'boundaries), model correspondence of every corner list. distinct = distinct sequences; non-trivial = at '
+        'boundaries), model correspondence of every corner list. Streams: plain; history (after the first export '
+        'round set_block replaces 1-3 blocks by edge-consistent content of ANOTHER duration / add_block appends, the '
+        'whole oracle is repeated on the same object after every operation); reread (written, read into a Sequence() '
+        'whose system has another gradient raster, exported from the re-read object; arbitrary gradients whose last '
+        'sample differs from `last`). distinct = distinct sequence states; non-trivial = at '
         'least one non-zero junction between blocks or a gradient with a delay')
 TRUSTED = ['binary64 arithmetic of NumPy and scipy.interpolate.PPoly are outside the model: sampled',
            'get_block is taken as the definition of the events held by the sequence (C06 checks it)']
@@ -62,13 +71,14 @@ def export_defect(held, ch, ts, vs, rend, times, tol_extra=Fraction(0)):
         if not a < b:
             return 'not-increasing', {'channel': ch, 't0': float(a), 't1': float(b)}
     scale = max(rend.max_abs(), Fraction(1))
-    tol = scale / 10 ** 9 + rend.junction_slack() + tol_extra
+    tol = scale / 10 ** 9 + tol_extra
     for t in times:
         want, spread = rend.value(t)
         got = eg.eval_export(ts, vs, t)
-        if abs(got - want) > tol + spread:
+        lim = tol + spread + rend.slack_at(t)
+        if abs(got - want) > lim:
             return 'value', {'channel': ch, 't': float(t), 'exported': float(got), 'rendered': float(want),
-                             'tol': float(tol + spread)}
+                             'tol': float(lim)}
     return None
 
 
@@ -111,13 +121,13 @@ def compare_model_wave(ctx, case, stream, out_line, impl_waves):
                 break
 
 
-def pick_ranges(rng, seq, held):
+def pick_ranges(rng, seq, held, n=3):
     """time ranges: random, and exact block boundaries as the implementation's own cumsum gives them"""
     bd = np.array(list(seq.block_durations.values()))
     cs = np.cumsum(bd)
     tot = float(cs[-1])
     out = []
-    for _ in range(3):
+    for _ in range(n):
         k = rng.random()
         if k < 0.4:
             a, c = sorted([rng.uniform(-0.1 * tot, 1.0 * tot), rng.uniform(0, 1.2 * tot)])
@@ -141,20 +151,17 @@ def pick_ranges(rng, seq, held):
     return out
 
 
-def run_case(ctx, case, rng, quick_extra=True):
-    try:
-        seq = eg.build_sequence(case)
-    except Exception as e:  # the generator produced something a constructor / add_block refuses
-        ctx.count('gen.refused')
-        ctx.notes.append('generator case refused: %r' % (e,)) if len(ctx.notes) < 3 else None
-        return
+def check_round(ctx, case, seq, blocks_desc, rng, n_ranges=3):
+    """the whole C08 oracle + model correspondence on the sequence object as it is now.  `case` is what is recorded
+    on a failure (full description incl. history and the phase reached); blocks_desc (or None) describes the events
+    that were put into the sequence, block by block."""
     held = eg.Held(seq)
     if not held.ok:
         ctx.count('gen.off_grid')
-        return
+        return None
     nblk = len(held.blocks)
     # the events the sequence holds must be the events that were added (kind and timing)
-    for bi, (blk, ent) in enumerate(zip(case['blocks'], held.blocks)):
+    for bi, (blk, ent) in enumerate(zip(blocks_desc or [], held.blocks)):
         for j, chn in enumerate('xyz'):
             if chn in blk['g'] and ent['g'][j] is not None:
                 why = eg.stored_differs(blk['g'][chn], ent['g'][j], held.raster)
@@ -172,7 +179,7 @@ def run_case(ctx, case, rng, quick_extra=True):
     except BaseException as e:  # `raise Warning(...)` of the monotonicity check included
         ctx.fail('C08/waveforms-raises', case, {'exception': repr(e)})
         ctx.evaluated(('seq', str(case)))
-        return
+        return False
     impl = []
     ok = True
     junction = False
@@ -211,10 +218,9 @@ def run_case(ctx, case, rng, quick_extra=True):
                 tf = np.array([float(t) for t in times])
                 got = pps[ch](tf)
                 scale = float(max(rend.max_abs(), 1))
-                slack = float(rend.junction_slack())
                 for t, gv in zip(times, got):
                     want, spread = rend.value(t)
-                    if not abs(float(gv) - float(want)) <= 1e-9 * scale + slack + float(spread) + 1e-12:
+                    if not abs(float(gv) - float(want)) <= 1e-9 * scale + float(rend.slack_at(t)) + float(spread) + 1e-12:
                         ctx.fail('C08/get_gradients-value', case, {'channel': ch, 't': float(t), 'pp': float(gv),
                                                                    'rendered': float(want)})
                         ok = False
@@ -222,7 +228,7 @@ def run_case(ctx, case, rng, quick_extra=True):
     # time_range selections
     range_cases = []
     if ok:
-        for (a, c) in pick_ranges(rng, seq, held):
+        for (a, c) in pick_ranges(rng, seq, held, n_ranges):
             sa, sc = eg.snap(a) if abs(F(a) - eg.snap(a)) < Fraction(1, 10 ** 13) else F(a), \
                      eg.snap(c) if abs(F(c) - eg.snap(c)) < Fraction(1, 10 ** 13) else F(c)
             sel = [i for i, e in enumerate(held.blocks) if e['start'] + e['dur'] >= sa and e['start'] <= sc]
@@ -271,9 +277,11 @@ def run_case(ctx, case, rng, quick_extra=True):
                 ts, vs = rimpl[ch]
                 # every corner of the restricted export is a corner of the full export
                 fts, fvs = impl[ch]
+                rfull = eg.Rendering(held, ch)
                 for t, v in zip(ts, vs):
                     k = bisect.bisect_left(fts, t - eg.TEDGE)
-                    if k >= len(fts) or abs(fts[k] - t) > eg.TEDGE or abs(fvs[k] - v) > abs(v) / 10 ** 9 + Fraction(1, 10 ** 9):
+                    if k >= len(fts) or abs(fts[k] - t) > eg.TEDGE or \
+                            abs(fvs[k] - v) > abs(v) / 10 ** 9 + Fraction(1, 10 ** 9) + rfull.slack_at(t):
                         ctx.fail('C08/time_range-not-part-of-full', rcase, {'channel': ch, 't': float(t), 'v': float(v)})
                         ok = False
                         break
@@ -298,6 +306,59 @@ def run_case(ctx, case, rng, quick_extra=True):
         compare_model_wave(ctx, case, 'wave', outs[0], impl)
         for ((sa, sc), rimpl), o in zip(range_cases, outs[1:]):
             compare_model_wave(ctx, dict(case, time_range=[float(sa), float(sc)]), 'range', o, rimpl)
+    return ok
+
+
+
+
+def apply_op(seq, blocks, op, case):
+    """one history operation on the sequence object and on its description"""
+    system = eg.make_system(case)
+    raster = case['raster_us'] * 1e-6
+    evs = eg.block_events(op['block'], system, raster)
+    if op['op'] == 'set':
+        seq.set_block(op['index'] + 1, *evs)
+        blocks = blocks[:op['index']] + [op['block']] + blocks[op['index'] + 1:]
+    else:
+        seq.add_block(*evs)
+        blocks = blocks + [op['block']]
+    return blocks
+
+
+def run_case(ctx, case, rng_unused=None):
+    """phase 0: the sequence as built; then, per history operation (set_block with another duration / add_block after
+    an export), the whole oracle again on the SAME object; then (reread cases) the sequence written and read into a
+    Sequence() whose system has another gradient raster."""
+    rng = random.Random(stable_hash(jsonable({k: v for k, v in case.items() if k not in ('phase', 'time_range')})))
+    try:
+        seq = eg.build_sequence(case)
+    except Exception as e:  # the generator produced something a constructor / add_block refuses
+        ctx.count('gen.refused')
+        ctx.notes.append('generator case refused: %r' % (e,)) if len(ctx.notes) < 3 else None
+        return None
+    blocks = list(case['blocks'])
+    ok = check_round(ctx, dict(case, phase=0), seq, blocks, rng)
+    if not ok:
+        return ok
+    for k, op in enumerate(case.get('history', [])):
+        try:
+            blocks = apply_op(seq, blocks, op, case)
+        except Exception as e:
+            ctx.count('gen.history_op_refused')
+            return ok
+        ctx.count('history.%s' % op['op'])
+        ok = check_round(ctx, dict(case, phase=k + 1), seq, blocks, rng, n_ranges=4)
+        if not ok:
+            return ok
+    if 'reread_raster_us' in case:
+        try:
+            s2 = eg.reread_sequence(seq, case)
+        except Exception as e:
+            ctx.count('gen.reread_refused')
+            ctx.notes.append('write/read refused: %r' % (e,)) if len(ctx.notes) < 3 else None
+            return ok
+        ctx.count('reread')
+        ok = check_round(ctx, dict(case, phase='reread'), s2, None, rng)
     return ok
 
 
@@ -373,16 +434,22 @@ def run(ctx):
     rng = ctx.rng('sequences')
     rrng = ctx.rng('ranges')
     big = ctx.tier == 'thorough' or ctx.escalated
-    n_cases = 2500 if big else 110
+    n_cases = 2500 if big else 90
     cases = corpus()
     for i in range(n_cases):
-        b = eg.Builder(rng, with_rf=rng.random() < 0.2, with_adc=rng.random() < 0.2, max_blocks=30 if big and i % 4 == 0 else 8)
-        cases.append(b.generate())
+        stream = rng.choice(['plain', 'plain', 'history', 'history', 'reread'])
+        b = eg.Builder(rng, with_rf=rng.random() < 0.2, with_adc=rng.random() < 0.2,
+                       max_blocks=30 if big and i % 4 == 0 else 8, reread=(stream == 'reread'))
+        c = b.generate()
+        if stream == 'history':
+            c['history'] = b.gen_history()
+        cases.append(c)
     for i, c in enumerate(cases):
         if ctx.out_of_time():
             ctx.notes.append('time budget reached after %d sequences' % i)
             break
-        run_case(ctx, c, rrng)
+        run_case(ctx, c)
+        ctx.count('stream.%s' % ('history' if c.get('history') else 'reread' if 'reread_raster_us' in c else 'plain'))
         if i % 40 == 3:
             ctx.sample({'raster_us': c['raster_us'], 'n_blocks': len(c['blocks']), 'first_block': c['blocks'][0]})
     render_correspondence(ctx, ctx.rng('render'), 120 if big else 12)
@@ -391,7 +458,8 @@ def run(ctx):
 def replay(ctx, case):
     c = dict(case)
     tr = c.pop('time_range', None)
-    ok = run_case(ctx, c, ctx.rng('ranges'))
+    c.pop('phase', None)
+    ok = run_case(ctx, c)
     res = {'oracle_ok': bool(ok), 'failures': len(ctx.failures), 'mismatches': len(ctx.mismatches)}
     if tr is not None:
         seq = eg.build_sequence(c)
